@@ -649,8 +649,11 @@ CO_ERR COSdoDownloadBlock(CO_SDO *srv)
 
     cmd = CO_GET_BYTE(srv->Frm, 0);
     if ((cmd & 0x7F) == (srv->Blk.SegCnt + 1)) {
-        /* check, that we need at least 1 byte out of the payload */
-        if (srv->Blk.Len > 0) {
+        /* check, that we need at least 1 byte out of the payload
+         * and that the segment fits into the transfer buffer
+         */
+        if ((srv->Blk.Len > 0) &&
+            (srv->Buf.Num <= (uint32_t)(CO_SDO_BUF_BYTE - 7))) {
             for (i = 0; i < 7; i++) {
                 *(srv->Buf.Cur) = CO_GET_BYTE(srv->Frm, 1 + i);
                 srv->Buf.Cur++;
@@ -708,6 +711,18 @@ CO_ERR COSdoDownloadBlock(CO_SDO *srv)
             CO_SET_BYTE(srv->Frm, 0, 3);
             CO_SET_LONG(srv->Frm, 0, 4);
 
+            /* the acknowledged segments are final: write them to the
+             * object, the client continues behind them with a new block
+             */
+            len = (uint32_t)srv->Buf.Num;
+            if (len > 0) {
+                err = COObjWrBufCont(srv->Obj, srv->Node, srv->Buf.Start, len);
+                if (err != CO_ERR_NONE) {
+                    srv->Node->Error = CO_ERR_SDO_WRITE;
+                }
+                srv->Buf.Cur = srv->Buf.Start;
+                srv->Buf.Num = 0;
+            }
             srv->Blk.SegCnt = 0;
             result          = CO_ERR_NONE;
         }
